@@ -336,7 +336,7 @@ class Fn:
     def with_body(self, body):
         """copy of this function with another body (keeps defaults / annotations)"""
         f = Fn(self.name, self.params, self.ptypes, self.ret, body, self.uses_self, self.stateful)
-        for k in ("defaults", "annot_ret", "tuple_self"):
+        for k in ("defaults", "annot_ret", "tuple_self", "rec"):
             if hasattr(self, k):
                 setattr(f, k, getattr(self, k))
         return f
@@ -537,7 +537,9 @@ class Gen:
         dfl = getattr(f, "defaults", {})
         args = [self.simple(d - 1, ctx) for _ in f.ptypes]
         style, omitted = "plain", []
-        if self.p.get("call_styles", True) and not getattr(f, "tuple_self", False):
+        if getattr(f, "rec", False):
+            args[0] = Node("lit", "%d.0" % r.below(4))          # recursion depth: a small literal
+        if self.p.get("call_styles", True) and not getattr(f, "tuple_self", False) and not getattr(f, "rec", False):
             opts = [("plain", 6)]
             if len(args) == 1:
                 opts.append(("pipe", 2))
@@ -801,8 +803,26 @@ class Gen:
             self.fns.append(self.gen_fn(f"f{i}", r.below(3), ret, 1 + r.below(self.p.get("depth", 3)), stateful, genv))
         nin = r.weighted([(0, 5), (1, 4)]) if self.p.get("inputs", True) else 0
         ret = F if (r.chance(3, 4) or not self.p.get("tuples", True)) else T(F, F)
+        if self.p.get("recursion", False) and r.chance(3, 4):
+            self.fns.append(self.gen_rec_fn(f"f{len(self.fns)}r", genv))
         dsp = self.gen_fn("dsp", nin, ret, 1 + r.below(self.p.get("depth", 3)), True, genv)
         return Prog(globals_, list(self.fns), dsp)
+
+    def gen_rec_fn(self, name, globals_):
+        """a stateless function that calls itself a literal number of times:
+        fn f(n, x){ if (n > 0.0) { let r = f(n - 1.0, E1[x]) ; E2[r, x, n] } else { E3[x] } }"""
+        n, x, rv = self.fresh("a"), self.fresh("a"), self.fresh()
+        ctx = dict(vars=list(globals_) + [(x, F, False)], allow_state=False, self_type=None, delays=set(), used_self=[False], no_time=True)
+        e1 = self.simple(1, ctx)
+        base = self.simple(1, ctx)
+        ctx2 = dict(ctx, vars=ctx["vars"] + [(rv, F, False), (n, F, False)])
+        e2 = Node("bin", self.r.pick(["add", "mul", "sub"]), Node("var", rv), self.simple(1, ctx2))
+        rec = Node("call", name, [Node("bin", "sub", Node("var", n), Node("lit", "1.0")), e1], self.new_site())
+        body = Node("if", Node("bin", "gt", Node("var", n), Node("lit", "0.0")), Node("let", rv, rec, e2), base)
+        fn = Fn(name, [n, x], [F, F], F, body, False, False)
+        fn.rec = True
+        fn.defaults = {}
+        return fn
 
 
 PROFILES = {
@@ -827,6 +847,8 @@ PROFILES = {
     "f3": dict(avoid_f2=True, avoid_f3=False),
     # aggregate pressure (tools/gen/aggrgen.py): many live multi-word values, writes into their middles, single-word results
     # of stateful operations in between, every leaf read back at the end
+    # core + one stateless function that calls itself (a literal number of times)
+    "rec": dict(avoid_f2=True, avoid_f3=True, recursion=True),
     "aggr": dict(gen="aggr"),
     "aggr_nofn": dict(gen="aggr", fn_fields=False),
 }
@@ -1207,3 +1229,31 @@ def field_names(p):
     for f in p.fns + [p.dsp]:
         walk(f.body)
     return sorted(out)
+
+
+
+def shadow_renames(p):
+    """capture-free renamings that make a let-bound local SHADOW an outer name: pairs (x, y) where x is a `let` variable
+    (unique in the program: the generator's names are fresh) and y is a name visible at that `let` — the enclosing
+    function's own name, another function, a global, a parameter — that does not occur in the scope of x.
+    Rendering with Knobs(rename={x: y}) turns `let x = e; b` into `let y = e; b[x:=y]`: e still means the outer y."""
+    import re
+    word = re.compile(r"[A-Za-z_][A-Za-z0-9_]*")
+    gl = [g for g, _ in p.globals]
+    fnames = [f.name for f in p.fns]
+    out = []
+    for fi, f in enumerate(list(p.fns) + [p.dsp]):
+        visible = gl + fnames[:fi] + ([f.name] if f.name != "dsp" else []) + list(f.params)
+
+        def walk(n):
+            if not isinstance(n, Node):
+                return
+            if n.kind == "let" and isinstance(n.a[0], str) and n.a[1].kind != "lam":
+                inside = set(word.findall(src(n.a[2])))
+                for y in visible:
+                    if y not in inside and y != n.a[0]:
+                        out.append((n.a[0], y, f.name))
+            for _, ch in children(n):
+                walk(ch)
+        walk(f.body)
+    return out
